@@ -323,7 +323,18 @@ def fs_leg(run, rng, tier, drv):
         fs_monitor(run, l, info, r)
         for e in r.partition(" |")[0].split():
             errs[e] = errs.get(e, 0) + 1
-    return {"fs_cases": len(lines), "fs_disagreements": len(bad), "fs_operation_results": errs}
+    # std::path::Path itself (has_root, components, parent) on every short name, canonical or not, against Fs.path_new / lp_parent
+    import itertools
+    alpha = [b"a", b"b", b".", b"/"]
+    names = [b""]
+    for n in range(1, 8 if tier == "quick" else 10):
+        names += [b"".join(t) for t in itertools.product(alpha, repeat=n)]
+    names += [b"a\\b/c", "é/日本/x".encode(), b"a/" * 70 + b"b", b"../" * 5 + b"x/./y//", b"/.//../a/.."]
+    plines = [hexs(n) for n in names]
+    pimpl, pmodel, pbad = differential(run, "std::path::Path components / parent (Fs.path_new, lp_parent)", har, drv, "pathparts", "pathparts", plines,
+                                       show=lambda l: repr(unhexs(l)))
+    return {"fs_cases": len(lines), "fs_disagreements": len(bad), "fs_operation_results": errs,
+            "path_names_exhaustive": len(names), "path_disagreements": len(pbad)}
 
 
 def main(tier, seed, replay=None):
